@@ -189,7 +189,7 @@ def safeCS (levels : List (List Tbl)) (rm : List Nat) (lvl : Nat) (add : List Ru
   let l0Removed := l0.filter (fun t => rm.contains t.id)
   let shallow := (List.range levels.length).find? (fun i => (levels.getD i []).any (fun t => rm.contains t.id))
   match shallow with
-  | none => add.flatten.isEmpty
+  | none => add.isEmpty
   | some sh =>
     decide (add.flatten = merged) &&
     (add.all (fun r => !r.isEmpty) || decide (add = [[]])) &&
